@@ -177,6 +177,7 @@ def run(ctx):
   MaxIters = {%s}
   CsVals = {TRUE, FALSE}
   Kinds = {"newton", "broyden", "nlbgs", "nlbj", "lnbgs", "lnbj"}
+  StallLimits = {0, 1, 2}
 INIT Init
 NEXT Next
 ''' % ('0, 1, 2' if quick else '0, 1, 2, 3')
@@ -197,6 +198,27 @@ PROPERTY StopsAtFirst
     beh = x.exports('EXP')
     if not beh:
         raise MachineryError('no behaviours exported')
+    if quick:
+        # stall bookkeeping needs longer histories (two separate plateaus): a second, narrower run with maxiter = 3
+        consts2 = '''CONSTANTS
+  Configs <- MCConfigs
+  NormVals <- MCNormVals
+  FirstVals <- MCFirstVals
+  MaxIters = {3}
+  CsVals = {FALSE}
+  Kinds = {"newton", "nlbj"}
+  StallLimits = {2}
+INIT Init
+NEXT Next
+'''
+        cfg2 = ctx.write_cfg('SolverMC_stall.cfg', consts2 + 'VIEW View\nINVARIANT IterBound\nINVARIANT FailIffNotMet\n'
+                             'INVARIANT SuccessSound\nPROPERTY StopsAtFirst\n')
+        ctx.tlc_check('mech/SolverMC', cfg2, timeout=3000, coverage=False)
+        x2 = ctx.tlc_run('mech/SolverMC', ctx.write_cfg('SolverMC_stall_export.cfg', consts2 + 'INVARIANT Export\n'),
+                         timeout=3000, heap='12g')
+        if x2.error or not x2.finished:
+            raise MachineryError('stall export failed:\n' + x2.tail())
+        beh += x2.exports('EXP')
     ctx.register_predicates({'C09-stall-before-tolerance': pred_stall_before_tol})
     # group by kind so that each worker re-uses one set-up problem per kind
     beh.sort(key=lambda b: (b['cfg']['kind'], b['cfg']['cs']))
